@@ -156,6 +156,12 @@ Lemma contains_app c (a b : str) :
   contains_char N.eqb c (a ++ b) = contains_char N.eqb c a || contains_char N.eqb c b.
 Proof. unfold contains_char. apply existsb_app. Qed.
 
+Lemma findb_prefix t r : findb t (t ++ r) = Some 0%nat.
+Proof.
+  unfold findb. pose proof (prefixb_app t r) as P. unfold prefixb in P.
+  destruct (t ++ r) as [|x l]; cbn [find_sub]; rewrite P; reflexivity.
+Qed.
+
 Lemma header_parts pint da db t len :
   forallb is_digit da = true -> forallb is_digit db = true -> tail_ok t ->
   get_first_range pint (s_bytes_eq ++ da ++ DASH :: db ++ t) len =
@@ -170,12 +176,7 @@ Lemma header_parts pint da db t len :
    end).
 Proof.
   intros Ha Hb Ht. unfold get_first_range.
-  assert (F : findb s_bytes_eq (s_bytes_eq ++ da ++ DASH :: db ++ t) = Some 0%nat).
-  { unfold findb. destruct (s_bytes_eq ++ da ++ DASH :: db ++ t) eqn:E; [discriminate|].
-    rewrite <- E. cbn [find_sub].
-    change (is_prefix N.eqb s_bytes_eq (s_bytes_eq ++ da ++ DASH :: db ++ t)) with
-        (prefixb s_bytes_eq (s_bytes_eq ++ da ++ DASH :: db ++ t)).
-    rewrite prefixb_app. destruct (s_bytes_eq ++ da ++ DASH :: db ++ t); reflexivity. }
+  pose proof (findb_prefix s_bytes_eq (da ++ DASH :: db ++ t)) as F.
   rewrite F. change (skipn (0 + 6) (s_bytes_eq ++ da ++ DASH :: db ++ t)) with (da ++ DASH :: db ++ t).
   replace (da ++ DASH :: db ++ t) with ((da ++ DASH :: db) ++ t) by (rewrite <- app_assoc; reflexivity).
   assert (NC : contains_char N.eqb COMMA (da ++ DASH :: db) = false).
@@ -189,6 +190,12 @@ Qed.
 Lemma is_nil_false {A} (l : list A) : l <> [] -> is_nil l = false.
 Proof. destruct l; [congruence|reflexivity]. Qed.
 
+Ltac crush_cmp :=
+  repeat match goal with
+  | |- context[?a <=? ?b] => destruct (Z.leb_spec a b)
+  | |- context[?a <? ?b] => destruct (Z.ltb_spec a b)
+  end; cbn [andb]; try reflexivity; try (exfalso; lia); try (f_equal; f_equal; lia).
+
 (* the three forms of byte-range-spec *)
 Lemma range_rfc_from_to da db t len :
   digit_str da -> digit_str db -> tail_ok t -> 0 <= len ->
@@ -200,9 +207,7 @@ Proof.
   rewrite (py_int_digits _ Ha), (py_int_digits _ Hb). cbv zeta. unfold rfc_range.
   set (a := Z.of_N (dval da)). set (b := Z.of_N (dval db)).
   assert (0 <= a) by (subst a; lia). assert (0 <= b) by (subst b; lia).
-  destruct ((a <=? b) && (a <? len)) eqn:E1;
-    destruct ((0 <=? a) && (a <? Z.min (b + 1) len) && (Z.min (b + 1) len <=? len)) eqn:E2;
-    try reflexivity; exfalso; lia.
+  crush_cmp.
 Qed.
 
 Lemma range_rfc_from da t len :
@@ -214,8 +219,7 @@ Proof.
   rewrite (is_nil_false da) by apply Ha. cbn [is_nil].
   rewrite (py_int_digits _ Ha). cbv zeta. unfold rfc_range.
   set (a := Z.of_N (dval da)). assert (0 <= a) by (subst a; lia).
-  destruct (a <? len) eqn:E1; destruct ((0 <=? a) && (a <? len) && (len <=? len)) eqn:E2;
-    try reflexivity; exfalso; lia.
+  crush_cmp.
 Qed.
 
 Lemma range_rfc_suffix db t len :
@@ -226,9 +230,7 @@ Proof.
   intros Hb Ht Hl. rewrite header_parts by (apply Hb || reflexivity || exact Ht).
   cbn [is_nil]. rewrite (py_int_digits _ Hb). cbv zeta. unfold rfc_range.
   set (n := Z.of_N (dval db)). assert (0 <= n) by (subst n; lia).
-  destruct ((0 <? n) && (0 <? len)) eqn:E1;
-    destruct ((0 <=? Z.max 0 (len - n)) && (Z.max 0 (len - n) <? len) && (len <=? len)) eqn:E2;
-    try reflexivity; exfalso; lia.
+  crush_cmp.
 Qed.
 
 Lemma range_rfc_lemma :
